@@ -497,19 +497,64 @@ fn uniform_independence(ctx: &mut Ctx) {
     ctx.extra.insert("uniform_pattern_counts".into(), json!(counts_json));
 }
 
+/// uniform crossover on long parents: every position is taken from the second parent with
+/// probability 1/2 and positions any distance apart are decided independently (lags up to 257)
+fn uniform_independence_long(ctx: &mut Ctx) {
+    let trials = ctx.tier.pick(300_000u64, 6_000_000);
+    let mut jobs = vec![];
+    for bits in [false, true] {
+        for tuple in [false, true] {
+            for len in [70usize, 130, 520] {
+                if tuple && len == 130 {
+                    continue;
+                }
+                let name = impl_name(false, bits, tuple);
+                let label = format!("{name} on parents of {len}");
+                let name2 = name.clone();
+                jobs.push(crate::stats::Job {
+                    name: label.clone(),
+                    run: Box::new(move |n, seed| {
+                        let rows = (n / len as u64).max(1500);
+                        let mut rng = StdRng::seed_from_u64(seed);
+                        let mut acc = crate::props::c12::LagAcc::new(len);
+                        let p1: Vec<bool> = (0..len).map(|i| i % 3 == 0).collect();
+                        let p2: Vec<bool> = p1.iter().map(|b| !b).collect();
+                        for _ in 0..rows {
+                            let out = guarded(|| if bits { recombine_bits(false, tuple, &p1, &p2, &mut rng).0 } else { recombine_vec(false, tuple, len, len, &mut rng) });
+                            match out {
+                                Ok(RecOut::Child(src)) => {
+                                    check_sources(&name2, false, len, &src)?;
+                                    let from2: Vec<bool> = src.iter().map(|s| *s == Some(2)).collect();
+                                    acc.add(&from2);
+                                }
+                                Ok(_) => return Err(Fail::new(format!("{name2}/spurious-error"), "equal-length parents rejected")),
+                                Err(p) => return Err(Fail::new(format!("{name2}/panic"), p)),
+                            }
+                        }
+                        Ok(acc.stats(&name2, &label, 0.5))
+                    }),
+                });
+            }
+        }
+    }
+    crate::stats::run_jobs(ctx, "uniform_long_parents", jobs, trials);
+}
+
 pub fn run(ctx: &mut Ctx) {
-    ctx.rule = "generated parent pairs (tagged (parent, position) vectors; complementary or random bitstrings) of equal and different lengths through TwoPointXo / UniformXo in all four impls x array/tuple forms with a generated random stream; generated crossover_gene / crossover_segment calls with indices around both lengths, usize::MAX and inverted ranges; plus seeded coverage of all two-point segments for len <= 6 and the exact 2^-len law of uniform-crossover source patterns for len <= 4. non-trivial = len >= 2 and the child mixes both parents, or any misuse / primitive case; distinct by JSON encoding".into();
+    ctx.rule = "generated parent pairs (tagged (parent, position) vectors; complementary or random bitstrings) of equal and different lengths through TwoPointXo / UniformXo in all four impls x array/tuple forms with a generated random stream; generated crossover_gene / crossover_segment calls with indices around both lengths, usize::MAX and inverted ranges; plus seeded coverage of all two-point segments for len <= 6 the exact 2^-len law of uniform-crossover source patterns for len <= 4, and on parents of 70 / 130 / 520 genes the per-position rate 1/2 and the agreement law 1/2 of disjoint position pairs at lags 1..257 (independence at a distance). non-trivial = len >= 2 and the child mixes both parents, or any misuse / primitive case; distinct by JSON encoding".into();
     ctx.assumptions.push("coverage check assumes every admissible two-point segment has probability >= 1/(len+1)^2; contents after an Err are not checked; an inverted range may return Ok (unchanged) or Err".into());
     let (n, max_len) = ctx.tier.pick((150_000u32, 60usize), (3_000_000, 500));
     ctx.run_prop("generated_cases", n, move || strategy(max_len), oracle);
     two_point_coverage(ctx);
     uniform_independence(ctx);
+    uniform_independence_long(ctx);
 }
 
 pub fn replay(ctx: &mut Ctx, sub: &str, case: &Value) {
     match sub {
         "two_point_segment_coverage" => two_point_coverage(ctx),
         "uniform_pattern_law" => uniform_independence(ctx),
+        "uniform_long_parents" => uniform_independence_long(ctx),
         _ => ctx.replay_case::<Case, _>(sub, case, oracle),
     }
 }
